@@ -5,9 +5,10 @@ import GoflowModel.Driver.Router
 import GoflowModel.Driver.Localize
 import GoflowModel.Driver.Inspect
 import GoflowModel.Driver.Contact
+import GoflowModel.Driver.Values
 open GoflowModel
 
-def handlers : List (List String → Option String) := [Driver.C12.handle, Driver.CQL.handle, Driver.Engine.handle, Driver.Router.handle, Driver.Localize.handle, Driver.Inspect.handle, Driver.Contact.handle]
+def handlers : List (List String → Option String) := [Driver.C12.handle, Driver.CQL.handle, Driver.Engine.handle, Driver.Router.handle, Driver.Localize.handle, Driver.Inspect.handle, Driver.Contact.handle, Driver.Values.handle]
 
 def step (line : String) : String :=
   let toks := (line.trimAscii.toString.splitOn " ").filter (· ≠ "")
